@@ -158,5 +158,15 @@ func StructuredLexInputs() []string {
 			out = append(out, "\""+rep("a", n)+tail+"\"", "\"\"\""+rep("b", n)+tail+"\"\"\" z", "#"+rep("c", n)+tail)
 		}
 	}
+	// every tricky string value in every spelling, and block strings whose lines are indented by a mix of
+	// blanks, tabs and Unicode spaces (only blanks and tabs are indentation)
+	for _, v := range trickyStrings {
+		for _, sp := range stringSpellings(v) {
+			out = append(out, sp+" x")
+		}
+	}
+	for _, body := range []string{"x\n\u3000a\n b", "\n\u00a0a\n\tb\n  c", "x\n\u2003\u2003a\n\u2003b\n c", "\n  \u3000a\n  b\n", "x\n\u00a0\n \u00a0y", "\n\u3000a\n\u3000b\n", "\n \u2028a\n \u0085b"} {
+		out = append(out, "\"\"\""+body+"\"\"\" y")
+	}
 	return out
 }
